@@ -856,7 +856,8 @@ func (c *Ctx) reportActionsColumn(r *shape.Result, fi *load.FuncInfo, site strin
 // nothing vouches for.
 func (c *Ctx) registryAdmissible() {
 	run := c.Run
-	n, nRel := 0, 0
+	run.Explanation += " Every period held by an object of a registry is at least 1 (decided on the concrete objects the registry functions build, nested sub-indicators included)."
+	n, nRel, nPer := 0, 0, 0
 	for _, fi := range c.P.Decls {
 		if fi.Fn.Name() != "AllStrategies" || fi.Decl.Recv != nil || fi.Decl.Body == nil {
 			continue
@@ -884,7 +885,7 @@ func (c *Ctx) registryAdmissible() {
 				var walk func(o *shape.Object, depth int)
 				seen := map[*shape.Object]bool{}
 				walk = func(o *shape.Object, depth int) {
-					if o == nil || seen[o] || depth > 3 {
+					if o == nil || seen[o] || depth > 6 {
 						return
 					}
 					seen[o] = true
@@ -904,9 +905,30 @@ func (c *Ctx) registryAdmissible() {
 								fmt.Sprintf("entry %d of the registry (%s) does not satisfy %s (%s): the strategy it hands out is outside the configurations the analyses cover, its streams fall out of step", i, tn, g.Rel, g.Why))
 						}
 					}
-					for _, fc := range o.Fields {
+					fnames := make([]string, 0, len(o.Fields))
+					for fname := range o.Fields {
+						fnames = append(fnames, fname)
+					}
+					sort.Strings(fnames)
+					for _, fname := range fnames {
+						fc := o.Fields[fname]
 						if inner, ok := fc.V.(*shape.Object); ok {
 							walk(inner, depth+1)
+						}
+						// Γ's general clause: every period is at least 1. In a registry the periods are
+						// numbers, so the clause is decided, not assumed.
+						if iv, isInt := fc.V.(shape.IntV); isInt && iv.E != nil && iv.E.IsLin() && strings.HasSuffix(strings.ToLower(fname), "period") {
+							syms := map[lin.Sym]bool{}
+							iv.E.Syms(syms)
+							if len(syms) == 0 {
+								nPer++
+								v := iv.E.Eval(nil)
+								run.Oblige(v >= 1)
+								if v < 1 {
+									c.violate("actions/registry", load.FuncName(fi.Fn), fmt.Sprintf("entry %d: %s.%s = %d", i, tn, fname, v), fi.Decl.Pos(),
+										fmt.Sprintf("entry %d of the registry holds a %s whose %s is %d: periods are at least 1 (a window of no elements; the warm-up of the strategy turns negative and Compute panics)", i, tn, fname, v))
+								}
+							}
 						}
 					}
 				}
@@ -917,6 +939,8 @@ func (c *Ctx) registryAdmissible() {
 	run.Count("registry_objects", n)
 	run.Floor("registry_objects", 30)
 	run.Count("registry_relations", nRel)
+	run.Count("registry_periods", nPer)
+	run.Floor("registry_periods", 50)
 }
 
 // columnReceives: the zip of the template holds only if one call of Value() consumes exactly one
